@@ -3,3 +3,6 @@ package hs
 import "crypto/rand"
 
 func cryptoRead(b []byte) (int, error) { return rand.Read(b) }
+
+// RandRead fills b from crypto/rand.
+func RandRead(b []byte) (int, error) { return rand.Read(b) }
